@@ -65,7 +65,7 @@ ENGINES = {
                             'C09': ['partial_store_flush_against_inaccessible_page', 'partial_load_flush_against_inaccessible_page', 'range_starts_right_after_inaccessible_page',
                                     'n0_calls', 'gather_scatter_with_wild_inactive_indices', 'exhaustive_k_sweeps'],
                             'C20': ['prefetch_range_touches_inaccessible_memory', 'prefetch_null_pointer', 'prefetch_n0', 'prefetch_stream_continues_into_inaccessible_page']},
-        'required_faults_by_prop': {'C08': ['stale_stack_and_register_poison'], 'C09': ['page_N_adjacent', 'page_R_adjacent', 'page_H_adjacent', 'watch_windows_armed', 'neighbour_write_at_instruction_k', 'stale_stack_and_register_poison'],
+        'required_faults_by_prop': {'C08': ['stale_stack_and_register_poison', 'page_N_adjacent'], 'C09': ['page_N_adjacent', 'page_R_adjacent', 'page_H_adjacent', 'watch_windows_armed', 'neighbour_write_at_instruction_k', 'stale_stack_and_register_poison'],
                                     'C20': ['neighbour_write_at_instruction_k']},
         'required_faults': [],
     },
